@@ -4,6 +4,7 @@ import (
 	"go/ast"
 	"go/token"
 	"go/types"
+	"sort"
 	"strings"
 
 	"golang.org/x/tools/go/ssa"
@@ -853,6 +854,77 @@ func commasAreFollowedByANewlineStep(c *core.Ctx) {
 		})
 		return found
 	}
+	// Where the step stands matters: after the comma was tested as the NEXT
+	// token and one nextToken() has made it the current one, the line break
+	// is the next token - a loop (or helper) that skips while the CURRENT
+	// token is a line break does nothing there.  styleOf gives the style of a
+	// token test; effectiveStep looks for a step over line breaks in body that
+	// looks at the token where the line break is.
+	styleOf := func(e ast.Expr) string {
+		if ce, ok := ast.Unparen(e).(*ast.CallExpr); ok {
+			if sel, ok := ce.Fun.(*ast.SelectorExpr); ok {
+				return sel.Sel.Name
+			}
+		}
+		return ""
+	}
+	helperStyle := map[string]string{}
+	funcBodies(pp, func(fn *types.Func, fd *ast.FuncDecl) {
+		if len(fd.Body.List) == 1 {
+			if fs, ok := fd.Body.List[0].(*ast.ForStmt); ok && fs.Cond != nil && isTokTest(fs.Cond, "NEWLINE") {
+				helperStyle[fd.Name.Name] = styleOf(fs.Cond)
+			}
+		}
+	})
+	effectiveStep := func(body ast.Node, commaStyle string) (found, effective bool) {
+		type ev struct {
+			pos   token.Pos
+			style string // "" for a nextToken call
+		}
+		var evs []ev
+		ast.Inspect(body, func(nd ast.Node) bool {
+			switch x := nd.(type) {
+			case *ast.ForStmt:
+				if x.Cond != nil && isTokTest(x.Cond, "NEWLINE") {
+					evs = append(evs, ev{x.Pos(), styleOf(x.Cond)})
+					return false
+				}
+			case *ast.CallExpr:
+				if sel, ok := x.Fun.(*ast.SelectorExpr); ok {
+					if st, isH := helperStyle[sel.Sel.Name]; isH {
+						evs = append(evs, ev{x.Pos(), st})
+					} else if sel.Sel.Name == "nextToken" {
+						evs = append(evs, ev{x.Pos(), ""})
+					}
+				}
+			}
+			return true
+		})
+		sort.Slice(evs, func(i, j int) bool { return evs[i].pos < evs[j].pos })
+		advanced := 0
+		for _, e := range evs {
+			if e.style == "" {
+				advanced++
+				continue
+			}
+			found = true
+			// where the line break is: one token after the comma
+			// comma is the token at offset 0 (cur-style test) or +1 (peek-style test) from the current one
+			commaAt := 0
+			if commaStyle == "peekTokenIs" {
+				commaAt = 1
+			}
+			lineBreakAt := commaAt + 1 - advanced // offset from the current token
+			looksAt := 0
+			if e.style == "peekTokenIs" {
+				looksAt = 1
+			}
+			if looksAt == lineBreakAt {
+				effective = true
+			}
+		}
+		return found, effective
+	}
 	n := 0
 	funcBodies(pp, func(fn *types.Func, fd *ast.FuncDecl) {
 		k := 0
@@ -867,6 +939,11 @@ func commasAreFollowedByANewlineStep(c *core.Ctx) {
 						ok := stepsOverNewlines(s.Body)
 						c.Check(ok, qual(pp, fd)+"|comma-then-newlines|"+sprintf("%d", k), p.Pos(s.Pos()),
 							fd.Name.Name+" consumes commas in a loop"+ife(ok, " and steps over line breaks after each", " and does not step over line breaks after them: a line broken after one of these commas is a parse error, while the lists of expressions accept it"))
+						if found, eff := effectiveStep(s.Body, styleOf(s.Cond)); found {
+							n++
+							c.Check(eff, qual(pp, fd)+"|newline-step-looks-where-the-line-break-is|"+sprintf("%d", k), p.Pos(s.Pos()),
+								fd.Name.Name+" steps over line breaks after a comma"+ife(eff, " by looking at the token where the line break is", ", but the step looks at another token than the one after the comma (a helper that skips while the current token is a line break, called while the comma is the current token, does nothing): a line broken after the comma is a parse error"))
+						}
 						return true
 					}
 					if s != nd {
